@@ -2,6 +2,7 @@ import GeoVerif.Driver.Concat
 import GeoVerif.Driver.Geom
 import GeoVerif.Driver.Merge
 import GeoVerif.Driver.Box
+import GeoVerif.Driver.Grid
 open Lean GeoVerif.Driver
 
 structure DSt where
@@ -17,6 +18,7 @@ def stepLine (st : DSt) (line : String) : DSt × String :=
     | "geom" => let (s, o) := GeomD.handle st.geom j; ({ st with geom := s }, o.compress)
     | "merge" => (st, (MergeD.handle j).compress)
     | "box" => (st, (BoxD.handle j).compress)
+    | "grid" => (st, (GridD.handle j).compress)
     | _ => (st, "\"bad-model\"")
 
 partial def loop (h : IO.FS.Stream) (out : IO.FS.Stream) (st : DSt) : IO Unit := do
